@@ -92,6 +92,7 @@ def _stm(prefix, body_indent='    '):
 KINDS = {
     'List.elts': (lambda e: '[' + ', '.join(e) + ']', ['body', 0, 'value'], 'elts', None, 'seq', 0),
     'Tuple.elts': (lambda e: '(' + ', '.join(e) + (',' if len(e) == 1 else '') + ')', ['body', 0, 'value'], 'elts', None, 'seq', 0),
+    'Tuple.elts(bare)': (lambda e: 'x = ' + ', '.join(e) + (',' if len(e) == 1 else '') + '\ny = 1', ['body', 0, 'value'], 'elts', None, 'seq', 1),
     'Set.elts': (lambda e: '{' + ', '.join(e) + '}', ['body', 0, 'value'], 'elts', None, 'seq', 1),
     'Delete.targets': (lambda e: 'del ' + ', '.join(e), ['body', 0], 'targets', None, 'seq', 1),
     'Call.args': (lambda e: 'f(' + ', '.join(e) + ')', ['body', 0, 'value'], 'args', None, 'seq', 0),
@@ -141,6 +142,7 @@ ONE = {  # single element code
     'handlers': lambda x: 'except ' + x + ':\n    pass', 'cases': lambda x: 'case ' + x.upper() + '():\n    pass', 'dict': lambda x: '{' + x + ': ' + x + '}',
     'mm': lambda x: '{"' + x + '": ' + x + '}', 'fstr': lambda x: 'f"{' + x + '}"',
 }
+EMPTY_NOT_VALID_SOURCE = {'If.body', 'Module.body', 'FunctionDef._body'}   # empty bodies are legitimately left by norm=False
 NOT_IMPLEMENTED_OK = {'JoinedStr.values'}
 KIND_OPTS = {'Compare._all': {'op': '<'}}   # insertion into a Compare needs the operator to insert (API requirement)
 
@@ -200,12 +202,32 @@ def check_result(ctx, kind, root, before_rest, model, what, case):
     if rest != before_rest:
         ctx.violation(f'rest-of-tree-changed:{kind}', f'{what}: nodes outside the field changed; src={root.src!r}', case)
         return False
+    return source_agrees(ctx, kind, root, model, what, case)
+
+
+def source_agrees(ctx, kind, root, model, what, case):
+    """the new source must denote the same container (checked only when the model result is a valid container)"""
+    if len(model) < KINDS[kind][5] or (not model and kind in EMPTY_NOT_VALID_SOURCE):
+        return True
+    try:
+        from ..base import refparse
+        ref, _ = refparse(root.src)
+        if ref is None:
+            raise SyntaxError
+        got = extract(kind, ref)
+    except (SyntaxError, AttributeError, IndexError, TypeError):
+        ctx.violation(f'source-disagrees-with-model:{kind}', f'{what}: tree holds {model} but the source does not parse to that container; src={root.src!r}', case)
+        return False
+    ctx.count('source_reparsed_and_compared')
+    if got != model:
+        ctx.violation(f'source-disagrees-with-model:{kind}', f'{what}: tree holds {model} but the source denotes {got}; src={root.src!r}', case)
+        return False
     return True
 
 
-def run_kind(ctx, FST, kind, rnd, lengths):
+def run_kind(ctx, FST, kind, rnd, lengths, names=('a', 'b', 'c', 'd', 'e')):
     tmpl, path, field, ex, jn, mn = KINDS[kind]
-    names = ['a', 'b', 'c', 'd', 'e']
+    names = list(names)
     for L in lengths:
         if L < mn:
             continue
@@ -299,6 +321,7 @@ def run_kind(ctx, FST, kind, rnd, lengths):
         for idx in list(range(-Lk, Lk)):
             single_classes(ctx, FST, kind, src0, old_keys, rest0, idx, rnd)
         insert_classes(ctx, FST, kind, src0, old_keys, rest0, rnd)
+        subview_classes(ctx, FST, kind, src0, old_keys, rest0, rnd)
     if len(ctx.samples) < 6:
         ctx.sample({'kind': kind, 'template': KINDS[kind][0](['a', 'b', 'c']), 'lengths': list(lengths)})
 
@@ -370,6 +393,8 @@ def single_classes(ctx, FST, kind, src0, old_keys, rest0, idx, rnd):
             outs[ep] = extract(kind, root.a)
             ctx.count('model_checked')
             ctx.evaluations += 1
+            if outs[ep] == want:
+                source_agrees(ctx, kind, root, want, f'single {ep} idx {idx} on {src0!r}', {'kind': kind, 'src': src0, 'ep': ep, 'idx': idx})
             if blank_rest(kind, root.a) != rest0:
                 ctx.violation(f'rest-of-tree-changed:{kind}', f'single {ep} idx {idx} on {src0!r}; src={root.src!r}', {'kind': kind, 'src': src0, 'ep': ep, 'idx': idx})
         except NotImplementedError:
@@ -474,6 +499,8 @@ def insert_classes(ctx, FST, kind, src0, old_keys, rest0, rnd):
                 outs[name] = extract(kind, root.a)
                 ctx.count('model_checked')
                 ctx.evaluations += 1
+                if outs[name] == want:
+                    source_agrees(ctx, kind, root, want, f'{what} via {name} on {src0!r}', {'kind': kind, 'src': src0, 'ep': name, 'what': list(what)})
                 if blank_rest(kind, root.a) != rest0:
                     ctx.violation(f'rest-of-tree-changed:{kind}', f'{what} via {name} on {src0!r}; src={root.src!r}', {'kind': kind, 'src': src0, 'ep': name, 'what': list(what)})
             except NotImplementedError:
@@ -492,6 +519,65 @@ def insert_classes(ctx, FST, kind, src0, old_keys, rest0, rnd):
             if got != want:
                 ctx.violation(f'insert-differs:{kind}:{what[0]}:{name}', f'{what} via {name} on {src0!r}: {got}, expected {want} (all: {outs})', {'kind': kind, 'src': src0, 'ep': name, 'what': list(what)})
                 break
+
+
+def subview_classes(ctx, FST, kind, src0, old_keys, rest0, rnd):
+    """operations on sub-views view[s:e] follow list semantics on the sub-list, re-based into the field"""
+    tmpl, path, field, ex, jn, mn = KINDS[kind]
+    Lk = len(old_keys)
+    try:
+        newk = extract(kind, ast.parse(tmpl(['x'] + ['zz', 'zy'][:max(0, mn - 1)])))[0]
+    except SyntaxError:
+        return
+    code = one_code(kind, 'x')
+    rng = range(-Lk - 1, Lk + 2)
+    trials = [(s_, e_) for s_ in rng for e_ in rng]
+    rnd.shuffle(trials)
+    for s_, e_ in trials[:6]:
+        i0, i1, _ = slice(s_, e_).indices(Lk)
+        if i1 < i0:
+            continue
+        sub = old_keys[i0:i1]
+        n = len(sub)
+        ops = []
+        for idx in (-n - 3, -n - 1, -n, -1, 0, 1, n, n + 2):
+            m = list(sub)
+            m.insert(idx, newk)
+            ops.append((f'insert({idx})', m, lambda v, idx=idx: v.insert(code, idx)))
+        ops.append(('append', sub + [newk], lambda v: v.append(code)))
+        ops.append(('prepend', [newk] + sub, lambda v: v.prepend(code)))
+        if n:
+            for idx in (0, -1, n - 1, -n):
+                m = list(sub)
+                m[idx] = newk
+                ops.append((f'setitem({idx})', m, lambda v, idx=idx: v.__setitem__(idx, code)))
+                m = list(sub)
+                del m[idx]
+                ops.append((f'delitem({idx})', m, lambda v, idx=idx: v.__delitem__(idx)))
+        ops.append(('remove', [], lambda v: v.remove()))
+        rnd.shuffle(ops)
+        for name, subm, fn in ops[:5]:
+            want = old_keys[:i0] + subm + old_keys[i1:]
+            root = FST(src0, 'exec')
+            tgt, _ = get_fst(root, kind)
+            case = {'kind': kind, 'src': src0, 'subview': [s_, e_], 'op': name}
+            try:
+                with FST.options(**KIND_OPTS.get(kind, {})):
+                    fn(getattr(tgt, field)[s_:e_])
+            except NotImplementedError:
+                ctx.count('not_implemented(documented)')
+                continue
+            except Exception as e:
+                if 'not implemented' in str(e).lower():
+                    ctx.count('not_implemented(documented)')
+                elif len(want) < mn or not model_keys_valid(kind, want):
+                    ctx.count('refused_model_result_invalid')
+                else:
+                    ctx.violation(f'valid-request-refused:{kind}', f'view[{s_}:{e_}].{name} on {src0!r} refused: {type(e).__name__}: {e}; model result {want}', case)
+                continue
+            ctx.count('subview_ops')
+            ctx.cell(kind, 'subview', name.split('(')[0], 'oob' if 'insert' in name and not (-n <= int(name[7:-1]) <= n) else 'in')
+            check_result(ctx, kind, root, rest0, want, f'view[{s_}:{e_}].{name} on {src0!r}', case)
 
 
 def run_layouts(ctx, FST, rnd):
@@ -515,6 +601,14 @@ def run_layouts(ctx, FST, rnd):
                 variants.append(v)
         except SyntaxError:
             pass
+    # comment glued to the end of the container's first line
+    ls = src0.split('\n')
+    v = '\n'.join([ls[0] + '# tight'] + ls[1:])
+    try:
+        if CTX_RE.sub('', ast.dump(ast.parse(v))) == CTX_RE.sub('', ast.dump(ast.parse(src0))):
+            variants.append(v)
+    except SyntaxError:
+        pass
     if len(variants) < 2:
         return
     Lk = len(extract(kind, ast.parse(src0)))
@@ -523,8 +617,9 @@ def run_layouts(ctx, FST, rnd):
     new = ['x', 'y'][:rnd.randint(0, 2)]
     code = JOIN[jn](new) if new else None
     codes = [code]
-    if code and '\n' not in code and jn == 'seq' and kind in ('List.elts', 'Tuple.elts', 'Set.elts', 'Call.args'):
+    if code and '\n' not in code and jn == 'seq' and kind in ('List.elts', 'Tuple.elts', 'Set.elts', 'Call.args', 'Tuple.elts(bare)'):
         codes.append(code.replace(', ', ',  # nc\n'))
+        codes.append(code.replace(', ', ',\n'))
     outs = []
     for v in variants:
         for c in codes:
@@ -533,8 +628,11 @@ def run_layouts(ctx, FST, rnd):
             try:
                 tgt.put_slice(c, start, stop, field)
                 outs.append((v, c, CTX_RE.sub('', ast.dump(root.a))))
+                m = extract(kind, root.a)
+                source_agrees(ctx, kind, root, m, f'put_slice({c!r}, {start}, {stop}) on layout variant {v!r}', {'kind': kind, 'variants': [v], 'codes': [c], 'start': start, 'stop': stop})
             except Exception as e:
                 outs.append((v, c, 'EXC:' + type(e).__name__))
+    # every successful variant must also be in sync with its own source
     ctx.count('layout_variant_groups')
     ctx.count('model_checked', len(outs))
     ctx.evaluations += len(outs)
@@ -551,6 +649,10 @@ def run(ctx):
     for i, kind in enumerate(kinds):
         if ctx.mine(i):
             run_kind(ctx, FST, kind, ctx.rnd, lengths)
+    for i, kind in enumerate(kinds):
+        if ctx.mine(i + 7) and not ctx.out_of_time():
+            run_kind(ctx, FST, kind, ctx.rnd, (3,) if ctx.tier == 'quick' else (2, 4), names=('é', 'üb', 'c', '蟒', 'ñe'))
+            ctx.count('multibyte_name_runs')
     # spare time: layout variants + random re-runs of kinds with other seeds
     while not ctx.out_of_time():
         run_layouts(ctx, FST, ctx.rnd)
